@@ -308,7 +308,7 @@ def check(run):
         state = const_cell(it, head, [pruned(it, 'out-msg-queue', sym32('OMQ')), accounts, pruned(it, 'state-tail', sym32('TAIL'))])
         return state, dict(acc1=acc1, acc2=acc2, acc3=acc3, leaf1=l1, leaf2=l2, leaf3=right)
 
-    for claim_kind in ('ordinary', 'pruned-carrying-the-hash'):
+    for claim_kind in ('ordinary', 'pruned-carrying-the-hash', 'ordinary-above-a-pruned-part'):
         for proved_kind in ('ordinary', 'pruned'):
             for nroots in (2, 1, 3):
                 outcomes = []
@@ -332,6 +332,11 @@ def check(run):
                         # not forged: its hash is the constructor's own SHA-256 term, so any route to the representation hash is recognised
                         claim = cm.new_cell(it, cm.tvm_bits(it, BA([Seg(24, 'k', format(0xC1A133, '024b'))])), [])
                         claim_l0 = claim.attrs['_hash']
+                    elif claim_kind == 'ordinary-above-a-pruned-part':
+                        # the account cell with one of its sub-trees replaced by a pruned branch: an ORDINARY cell of level 1 - not exotic - whose
+                        # level-0 hash is that of the complete account, while its own (representation) hash is not the committed one
+                        claim = cm.new_cell(it, cm.tvm_bits(it, BA([Seg(24, 'k', format(0xC1A133, '024b'))])), [pruned(it, 'claim-part', sym32('CARRIED_PART'))])
+                        claim_l0 = cm.call_method(it, claim, 'get_hash', K(0))
                     else:
                         claim_l0 = sym32('CARRIED')
                         claim = pruned(it, 'claim', claim_l0)
